@@ -241,7 +241,9 @@ func (d *client) newRequest(body []byte) (request, error) {
 
 	req := request{Request: r}
 	switch Compression(d.cfg.Compression) {
-	case NoCompression:
+	default:
+		// NoCompression. An unknown Compression value is also sent uncompressed
+		// instead of leaving the request without a body (nil dereference on send).
 		r.ContentLength = (int64)(len(body))
 		req.bodyReader = bodyReader(body)
 	case GzipCompression:
